@@ -277,7 +277,11 @@ def variant_pass(c, L):
     if n7 is None or n7.k != 'int':
         return z3.BoolVal(False)
     cur = c.st.ghost.get('copy_in_hand')
+    n5 = c.st.env.get('__i5')
+    if n5 is None or n5.k != 'int':
+        return z3.BoolVal(False)
     return z3.And(nm.extra['variant_full_name'] == L.i - 1, n7.z == NCTL,  # this variant's name; ALL its values written
+                  n5.z == NPAIRS(L.i - 1),                                 # after ALL its (control, values) pairs were applied
                   z3.BoolVal(cur == copies[0][1]))                        # ... of the copy made in THIS pass
 
 
@@ -351,7 +355,12 @@ def header_post(c):
           and after and after[0][0] == 'write' and after[0][1] == 'i16' and after[0][3].k == 'int')
     if not ok:
         return z3.BoolVal(False)
-    return z3.And(pre[2][3].z == NCTL, mid1[0][3].z == NNAMES, mid2[0][3].z == NCH, after[0][3].z == NVAR)
+    cl = [pre[2][3].z == NCTL, mid1[0][3].z == NNAMES, mid2[0][3].z == NCH, after[0][3].z == NVAR]
+    r = c.resultv
+    if r.k == 'bool' and z3.is_true(z3.simplify(r.z)) and [e for e in t if e[0] == 'loop-head' and e[1] == 4]:
+        n4 = c.st.env.get('__i4')
+        cl.append(n4.z == NVAR if n4 is not None and n4.k == 'int' else z3.BoolVal(False))   # True only after EVERY variant
+    return z3.And(*cl)
 
 
 K = lambda e, n: V('obj', oid='havoc')
